@@ -1,4 +1,5 @@
 import TinsModel.Ownership.LemmasFrame
+import TinsModel.Ownership.LemmasOptM
 /-
   Property C12 — packet object trees keep sound ownership under copy, move, clone and re-linking.
 
@@ -462,5 +463,318 @@ example : WellFormedProgram demoProgram := by unfold WellFormedProgram; decide
 example : (run {} (demoProgram.take 13)).heap.live = 5 ∧ (run {} (demoProgram.take 13)).heap.freed.length = 3 := by decide
 
 example : (run {} demoProgram).heap.live = 0 ∧ (run {} demoProgram).heap.freed.length = 8 := by decide
+
+end Tins.Props.C12
+
+/-!
+  ## `PDUOption` at storage level (include/tins/pdu_option.h)
+
+  `Tins.OptStore.step` is the code-shaped model of the option class over an explicit heap (members `option_`, `size_`,
+  `real_size_`, the union `payload_`; every constructor, both assignment operators, the destructor,
+  `set_payload_contents`, `data_ptr`; `std::vector<option>::push_back / pop_back / erase` as the sequences of member
+  calls libstdc++ makes); `Tins.OptStore.SState.step` is the value-level specification.  All theorems quantify over
+  EVERY history of operations on a pool of options (refused operations — constructing over a live object, using a
+  destroyed one — leave the state unchanged, exactly as the harness refuses them).
+-/
+namespace Tins.Props.C12
+open Tins.OptStore
+
+/-! ### `option_storage_inv` -/
+
+/-- the storage invariant is inductive: EVERY accepted operation preserves it from EVERY state that has it -/
+theorem option_storage_inv_step {σ σ' : Pool} {op : Op} (h : StoreInv σ) (hs : step σ op = some σ') : StoreInv σ' := by
+  obtain ⟨A', _, hr⟩ := step_rep (rep_of_storeInv h) hs
+  exact storeInv_of_rep hr
+
+theorem option_storage_inv_run {σ : Pool} (h : StoreInv σ) (ops : List Op) : StoreInv (run σ ops) := by
+  induction ops generalizing σ with
+  | nil => exact h
+  | cons op r ih =>
+    apply ih
+    unfold stepD
+    cases hs : step σ op with
+    | none => exact h
+    | some σ' => exact option_storage_inv_step h hs
+
+/-- **storage invariant**: after every history each live option with `real_size_ > 8` owns exactly one live heap block
+    of exactly `real_size_` bytes, no block is owned by two options, every live block has an owner (no leak), small
+    and moved-from options own nothing, released storage is never read and nothing is released twice (`no_fault`,
+    `freed_once`) -/
+theorem option_storage_inv (ops : List Op) : StoreInv (run {} ops) :=
+  option_storage_inv_run (storeInv_of_rep rep_empty) ops
+
+/-- an option whose data fits the small buffer owns no heap block -/
+theorem option_small_owns_nothing {σ : Pool} {i : Nat} {o : Obj} (ho : σ.obj? i = some o) (hs : o.real_size_ ≤ smallSize)
+    (a : Nat) : ¬ OptStore.Owns σ i a := by
+  rintro ⟨o', ho', hb, _⟩
+  rw [ho] at ho'; cases ho'
+  omega
+
+theorem movedFrom_data_small (v : VOpt) : v.movedFrom.data.length ≤ smallSize := by
+  unfold VOpt.movedFrom smallSize
+  split
+  · simp
+  · omega
+
+/-- the block its owner releases when it is destroyed was alive, had not been released before, and is released then -/
+theorem option_owner_destroyed_frees_block {σ σ' : Pool} {i a : Nat} (h : StoreInv σ) (ho : OptStore.Owns σ i a)
+    (hs : step σ (.del i) = some σ') : σ'.freed = a :: σ.freed ∧ σ'.cell? a = none ∧ a ∉ σ.freed := by
+  simp only [step] at hs
+  split at hs
+  · cases hs; exact destroy_frees h ho
+  · cases hs
+
+theorem run_snoc (σ : Pool) (ops : List Op) (op : Op) : run σ (ops ++ [op]) = stepD (run σ ops) op := by
+  induction ops generalizing σ with
+  | nil => rfl
+  | cons o r ih => exact ih (stepD σ o)
+
+theorem srun_snoc (A : SState) (ops : List Op) (op : Op) : A.run (ops ++ [op]) = (A.run ops).stepD op := by
+  induction ops generalizing A with
+  | nil => rfl
+  | cons o r ih => exact ih (A.stepD o)
+
+/-- the storage model refines the value specification along every history -/
+theorem option_model_refines_spec (ops : List Op) : Rep (run {} ops) (SState.run {} ops) := run_rep rep_empty ops
+
+/-- destroying every option, after any history, releases every block ever allocated exactly once: nothing stays
+    alive, the release log has no duplicate and lists every allocated address, no fault occurred -/
+theorem option_destroy_all_frees_each_block_once (ops : List Op) :
+    let σ := run {} (ops ++ [.fin])
+    σ.live = 0 ∧ σ.freed.Nodup ∧ (∀ a, a < σ.cells.length ↔ a ∈ σ.freed) ∧ σ.faults = 0 := by
+  intro σ
+  have hr : Rep σ (SState.run {} (ops ++ [.fin])) := option_model_refines_spec _
+  have hinv := storeInv_of_rep hr
+  have hnone : ∀ i, (SState.run {} (ops ++ [.fin])).opt? i = none := by
+    intro i
+    rw [srun_snoc]
+    simp only [SState.stepD, SState.step, Option.getD_some]
+    apply opt?_all_none
+    intro x hx
+    obtain ⟨_, _, e⟩ := List.mem_map.mp hx
+    exact e.symm
+  have hdead : ∀ a, σ.cell? a = none := by
+    intro a
+    cases hc : σ.cell? a with
+    | none => rfl
+    | some bs =>
+      obtain ⟨i, o, ho, _⟩ := hinv.no_leak a bs hc
+      have := hr.live_iff i
+      rw [ho, hnone] at this
+      cases this
+  have hcell : ∀ a, a < σ.cells.length → σ.cells[a]? = some none := by
+    intro a ha
+    rw [List.getElem?_eq_getElem ha]
+    cases hc : σ.cells[a] with
+    | none => rfl
+    | some bs =>
+      have : σ.cell? a = some bs := cell?_eq_some.mpr (by rw [List.getElem?_eq_getElem ha, hc])
+      rw [hdead a] at this; cases this
+  refine ⟨?_, hinv.freed_once.1, ?_, hinv.no_fault⟩
+  · unfold Pool.live
+    rw [List.length_eq_zero_iff, List.filter_eq_nil_iff]
+    intro c hc
+    obtain ⟨a, ha, e⟩ := List.getElem_of_mem hc
+    have := hcell a ha
+    rw [List.getElem?_eq_getElem ha, e] at this
+    cases this
+    simp
+  · intro a
+    rw [hinv.freed_once.2 a]
+    exact ⟨hcell a, fun h => (List.getElem?_eq_some_iff.mp h).1⟩
+
+/-! ### `option_value_refines` -/
+
+/-- **value refinement**: what every option reports — `(option(), length_field(), the data_size() bytes at
+    data_ptr())`, read through the storage model, `none` for a slot without object — is, after every history, exactly
+    the value the plain value model holds: a copy has the value of its source; a move gives the target the value of
+    the source and leaves the source reporting its old `option()` and `length_field()` with `data_size() = 0` when its
+    data was longer than 8 bytes, unchanged otherwise (`VOpt.movedFrom`) -/
+theorem option_value_refines (ops : List Op) (i : Nat) : (run {} ops).view i = (SState.run {} ops).opt? i :=
+  (option_model_refines_spec ops).view_eq i
+
+/-- model and value specification refuse exactly the same operations -/
+theorem option_guards_agree (ops : List Op) (op : Op) :
+    (step (run {} ops) op).isSome = ((SState.run {} ops).step op).isSome :=
+  step_agree (option_model_refines_spec ops) op
+
+/-- copy assignment (also onto itself): the target reports what the source reported, the source is unchanged -/
+theorem option_copy_assign_equal (ops : List Op) (i j : Nat) (σ' : Pool) (h : step (run {} ops) (.assign i j) = some σ') :
+    σ'.view i = (run {} ops).view j ∧ σ'.view j = (run {} ops).view j ∧ ((run {} ops).view j).isSome := by
+  have hr := option_model_refines_spec ops
+  obtain ⟨A', hA, hr'⟩ := step_rep hr h
+  rw [hr'.view_eq, hr'.view_eq, hr.view_eq]
+  simp only [SState.step] at hA
+  split at hA
+  · next vi v hi hj =>
+    cases hA
+    rw [hj, opt?_put, opt?_put]
+    have hl := lt_of_opt? hi
+    refine ⟨by simp [hl], ?_, rfl⟩
+    split
+    · rfl
+    · exact hj
+  · cases hA
+
+/-- move assignment: between two options the target reports what the source reported and the source is left
+    moved-from; onto itself the option is left moved-from -/
+theorem option_move_assign_transfers (ops : List Op) (i j : Nat) (σ' : Pool)
+    (h : step (run {} ops) (.massign i j) = some σ') :
+    (i ≠ j → σ'.view i = (run {} ops).view j ∧ σ'.view j = ((run {} ops).view j).map VOpt.movedFrom) ∧
+    (i = j → σ'.view i = ((run {} ops).view i).map VOpt.movedFrom) := by
+  have hr := option_model_refines_spec ops
+  obtain ⟨A', hA, hr'⟩ := step_rep hr h
+  rw [hr'.view_eq, hr'.view_eq, hr.view_eq, hr.view_eq]
+  simp only [SState.step] at hA
+  split at hA
+  · next vi v hi hj =>
+    have hli := lt_of_opt? hi
+    have hlj := lt_of_opt? hj
+    split at hA
+    · next e =>
+      cases hA
+      subst e
+      rw [hi] at hj; cases hj
+      refine ⟨fun hne => absurd rfl hne, fun _ => ?_⟩
+      rw [opt?_put, hi]
+      simp [hli]
+    · next e =>
+      cases hA
+      refine ⟨fun _ => ?_, fun e' => absurd e' e⟩
+      have e' : ¬ j = i := fun q => e q.symm
+      have hli' : i < ((SState.run {} ops).put j (some v.movedFrom)).opts.length := by simpa using hli
+      have h1 : (((SState.run {} ops).put j (some v.movedFrom)).put i (some v)).opt? i = some v := by
+        rw [opt?_put, if_pos ⟨rfl, hli'⟩]
+      have h2 : (((SState.run {} ops).put j (some v.movedFrom)).put i (some v)).opt? j = some v.movedFrom := by
+        rw [opt?_put_ne e', opt?_put, if_pos ⟨rfl, hlj⟩]
+      rw [h1, h2, hj]
+      exact ⟨rfl, rfl⟩
+  · cases hA
+
+/-- a moved-from option owns no heap block -/
+theorem option_moved_from_owns_nothing (ops : List Op) (i j : Nat) (hne : i ≠ j) (σ' : Pool)
+    (h : step (run {} ops) (.massign i j) = some σ') (a : Nat) : ¬ OptStore.Owns σ' j a := by
+  have hr := option_model_refines_spec ops
+  obtain ⟨A', hA, hr'⟩ := step_rep hr h
+  have hv := (option_move_assign_transfers ops i j σ' h).1 hne
+  intro ⟨o, ho, hb, _⟩
+  obtain ⟨v, hfv, hrep⟩ := hr'.inv.rep_of ho
+  have h2 := hv.2
+  rw [hr'.view_eq, hfv] at h2
+  cases hx : (run {} ops).view j with
+  | none => rw [hx] at h2; cases h2
+  | some w =>
+    rw [hx] at h2
+    simp only [Option.map_some, Option.some.injEq] at h2
+    have := movedFrom_data_small w
+    rw [← h2, ← hrep.real] at this
+    omega
+
+/-! ### `option_copy_independent` -/
+
+/-- **independence / frame**: an operation changes nothing that an option it does not name reports -/
+theorem option_copy_independent (ops : List Op) (op : Op) (σ' : Pool) (h : step (run {} ops) op = some σ') (k : Nat)
+    (hk : touches (run {} ops).nuser (run {} ops).vlen op k = false) : σ'.view k = (run {} ops).view k := by
+  have hr := option_model_refines_spec ops
+  obtain ⟨A', hA, hr'⟩ := step_rep hr h
+  rw [hr'.view_eq, hr.view_eq]
+  rw [hr.nuser, hr.vlen] at hk
+  exact spec_frame hr.cap hA k hk
+
+/-- after a copy construction, any later operation on one side leaves what the other side reports unchanged -/
+theorem option_copy_then_op (ops : List Op) (i j : Nat) (op : Op) (σ1 σ2 : Pool)
+    (h1 : step (run {} ops) (.copy i j) = some σ1) (h2 : step σ1 op = some σ2) :
+    σ1.view i = (run {} ops).view j ∧ σ1.view j = (run {} ops).view j ∧
+    (touches σ1.nuser σ1.vlen op j = false → σ2.view j = (run {} ops).view j) ∧
+    (touches σ1.nuser σ1.vlen op i = false → σ2.view i = (run {} ops).view j) := by
+  have e1 : σ1 = run {} (ops ++ [.copy i j]) := by rw [run_snoc]; unfold stepD; rw [h1]; rfl
+  have hr := option_model_refines_spec ops
+  obtain ⟨A1, hA1, hr1⟩ := step_rep hr h1
+  have hvi : σ1.view i = (run {} ops).view j ∧ σ1.view j = (run {} ops).view j := by
+    rw [hr1.view_eq, hr1.view_eq, hr.view_eq]
+    simp only [SState.step] at hA1
+    split at hA1
+    · next v hj =>
+      split at hA1
+      · next hg =>
+        cases hA1
+        have hl : i < (SState.run {} ops).opts.length := by have := hr.cap; omega
+        rw [hj, opt?_put, opt?_put]
+        refine ⟨by simp [hl], ?_⟩
+        split
+        · rfl
+        · exact hj
+      · cases hA1
+    · cases hA1
+  refine ⟨hvi.1, hvi.2, ?_, ?_⟩
+  · intro hk
+    subst e1
+    rw [option_copy_independent _ op σ2 h2 j hk]; exact hvi.2
+  · intro hk
+    subst e1
+    rw [option_copy_independent _ op σ2 h2 i hk]; exact hvi.1
+
+/-! ### a vector of options -/
+
+/-- `erase(begin() + k)` — move assignments of the later elements one slot down, destruction of the last — closes the
+    gap and changes nothing else: every slot before position `k` reports what it did, every later element of the
+    vector reports what its successor did, the vector's last slot holds no object (by `option_storage_inv_step` the
+    storage invariant survives, by `option_value_refines` the reports are the value model's) -/
+theorem option_erase_closes_gap (ops : List Op) (k : Nat) (σ' : Pool) (h : step (run {} ops) (.verase k) = some σ') (j : Nat) :
+    let σ := run {} ops
+    σ'.view j = if j < σ.nuser + k then σ.view j else if j < σ.nuser + σ.vlen - 1 then σ.view (j + 1)
+                else if j = σ.nuser + σ.vlen - 1 then none else σ.view j := by
+  intro σ
+  have hr := option_model_refines_spec ops
+  obtain ⟨A', hA, hr'⟩ := step_rep hr h
+  rw [hr'.view_eq, hr.view_eq, hr.view_eq, hr.nuser, hr.vlen]
+  simp only [SState.step] at hA
+  split at hA
+  · next hk => cases hA; exact erase_opt? _ k hk hr.cap j
+  · cases hA
+
+/-! ### the defect of the pinned tree (KF-C12-2), at storage level -/
+
+def heapOptionPool : Pool := run {} [.init 1 0, .newRange 0 3 [65, 66, 67, 68, 69, 70, 71, 72, 73, 74, 75, 76]]
+
+/-- the pinned `operator=(const PDUOption&)` (no identity test) on itself: `delete[]` of its own buffer, then
+    `set_payload_contents` copies from that released buffer — a read of released storage … -/
+theorem pinned_option_self_assign_reads_released :
+    (heapOptionPool.copyAssignOld 0 0).faults = 1 ∧ (heapOptionPool.copyAssignOld 0 0).freed = [0] := by decide
+
+/-- … whereas the fixed operator leaves the option alone, for every pool and every slot -/
+theorem fixed_option_self_assign_noop (σ : Pool) (t : Nat) : σ.copyAssign t t = σ := by simp [Pool.copyAssign]
+
+/-! ### non-vacuity -/
+
+def OptWellFormed (ops : List Op) : Prop := ∀ k (h : k < ops.length), (step (run {} (ops.take k)) ops[k]).isSome
+
+def optDemo : List Op :=
+  [.init 4 3, .newRange 0 1 [1, 2, 3], .newAdv 1 2 40 [9, 8, 7, 6, 5, 4, 3, 2, 1, 0, 1, 2], .copy 2 1, .assign 1 1,
+   .massign 0 1, .vpush 2, .vpushMove 2, .vpush 0, .massign 2 2, .verase 0, .move 3 4, .assign 4 3, .read 4, .vpop, .del 3, .fin]
+
+/-- a 17-step history over four user slots and a vector that the guard accepts at every step … -/
+example : OptWellFormed optDemo := by unfold OptWellFormed; decide
+
+/-- … in which options really change between small-buffer and heap storage: before `end` three heap blocks are alive,
+    two have been released … -/
+example : (run {} (optDemo.take 16)).live = 2 ∧ (run {} (optDemo.take 16)).freed.length = 3 ∧
+    (run {} (optDemo.take 16)).view 0 = some ⟨2, 40, [9, 8, 7, 6, 5, 4, 3, 2, 1, 0, 1, 2]⟩ ∧
+    (run {} (optDemo.take 16)).view 1 = some ⟨2, 40, []⟩ := by decide
+
+/-- … and afterwards nothing is alive -/
+example : (run {} optDemo).live = 0 ∧ (run {} optDemo).freed.length = 5 ∧ (run {} optDemo).faults = 0 := by decide
+
+example : OptStore.Owns (run {} (optDemo.take 4)) 1 0 ∧ OptStore.Owns (run {} (optDemo.take 4)) 2 1 := by
+  refine ⟨⟨⟨2, 40, 12, .big (.addr 0)⟩, by decide, by decide, rfl⟩, ⟨⟨2, 40, 12, .big (.addr 1)⟩, by decide, by decide, rfl⟩⟩
+
+/-- the hypotheses of `option_owner_destroyed_frees_block`, `option_copy_then_op`, `option_move_assign_transfers`
+    (both forms) and `option_erase_closes_gap` are met along this history: an owner is destroyed, a copy is followed by
+    an operation on its source, a heap-backed option is move-assigned to another and to itself, a vector of three
+    heap-backed / moved-from options loses its first element -/
+example : (step (run {} (optDemo.take 4)) (.del 2)).isSome ∧
+    (step (run {} (optDemo.take 3)) (.copy 2 1)).isSome ∧ (step (run {} (optDemo.take 4)) (.massign 1 2)).isSome ∧
+    (step (run {} (optDemo.take 5)) (.massign 0 1)).isSome ∧ (step (run {} (optDemo.take 9)) (.massign 2 2)).isSome ∧
+    (step (run {} (optDemo.take 10)) (.verase 0)).isSome ∧ (run {} (optDemo.take 10)).vlen = 3 := by decide
 
 end Tins.Props.C12
